@@ -926,6 +926,13 @@ def run_impl(case):
     return res
 
 
+def _match(p, s):
+    try:
+        return re.match(p, s) is not None
+    except re.error:
+        return False
+
+
 def _search(p, s):
     try:
         return re.search(p, s) is not None
@@ -1488,7 +1495,15 @@ def oracle(case, impl, model):
         todo = list(zip(case["bdocs"], impl.get("bdocs", []), case.get("bkeys") or [None] * len(case["bdocs"])))
         if base_rejected and base.get("valid"):
             todo.insert(0, (base_doc(case), base, []))
+        # hypothesis of the exactness theorems, evaluated on the case: search => match for start-anchored patterns
+        hs_ok = all((not sr) or _match(p, t) for p, t, sr in impl.get("search", []) if p.startswith("^"))
         for bi, (dj, r, ck) in enumerate(todo):
+            if r.get("valid") and "err" in r.get("deser", {}) and model.get("inExact") and hs_ok \
+                    and not uses_mixin_enum(case) and isinstance(dj, dict) and "m" in dj \
+                    and all(isinstance(k, str) for k, _ in dj["m"]):
+                fails.append(("exact:inside-the-proved-region",
+                              "schema_exact_class_partial covers this (class, document), yet the real Deserializer rejects a document "
+                              f"the real schema admits ({r['deser']['err']}: {r['deser'].get('msg')}): " + json.dumps(dj)[:250]))
             if r.get("valid") and "err" in r.get("deser", {}):
                 # the field(s) in which the document differs from the image of a valid instance
                 msg = r["deser"].get("msg", "")
